@@ -269,6 +269,13 @@ func (u *Unit) oblige(f *Frame, st *State, kind, text, goal string, pos token.Po
 	if goal == "true" {
 		return
 	}
+	if u.con != nil && u.con.Wiring {
+		switch kind {
+		case "index", "nil", "slice", "divzero", "makeslice", "typeassert", "nilmap", "arith", "wrap", "pre", "panic":
+			// wiring-only unit: memory safety of this function is not claimed
+			return
+		}
+	}
 	if parts := splitAnd(goal); len(parts) > 1 && (kind == "ensures" || kind == "inv-entry" || kind == "inv-preserved" || kind == "pre" || kind == "assert") {
 		for i, p := range parts {
 			u.oblige(f, st, kind, fmt.Sprintf("%s/%d", text, i+1), p, pos)
